@@ -683,9 +683,29 @@ def inject_fault(g, items):
     out[j:j] = [('s', r.choice(pieces))]
     return g.render(out)
 
+def deep_templates():
+    """nesting depths and run lengths around the widths of small integer types (a counter that is narrower than it
+    should be wraps or overflows there)"""
+    ts = []
+    for k in (126, 127, 128, 129, 130, 255, 256, 257):
+        ts.append(b'/r' + b'(/s' * k + b')' * k)                 # k nested groups
+        ts.append(b'/r' + b'(/s' * k + b')' * (k - 1))           # one parenthesis short
+    for k in (127, 128, 129, 256):
+        ts.append(b'/{a' + b'{' * k + b'}' * k + b'}')           # nested braces inside a parameter
+        ts.append(b'/x' + b'(/y)' * 0 + b'\\(' * k)                 # k escaped parentheses
+        ts.append(b'/' + b'a' * k + b'/{p}')                       # a long literal
+    return ts
+
+
 def scen_parse_random(g, n):
     r = g.r
     out = []
+    if n >= 100 and r.random() < 0.25:      # in about a quarter of the shards
+        # through the parser hook only: judging an insert of a template with hundreds of expansions is far too slow
+        for t in deep_templates():
+            out.append('parse ' + hx(t))
+        t = b'/r' + b'(/s' * 33 + b')' * 33
+        out += ['new 0', 'insert 0 %s 1' % hx(t), 'search 0 ' + hx(b'/r' + b'/s' * 3), 'delete 0 %s' % hx(t), 'end']
     for _ in range(n):
         vocab = r.sample(STATICS, 4) + [b'a', b'b']
         items = g.template_items(vocab)
